@@ -32,6 +32,46 @@ SMALL_CFGS = [
 ]
 
 
+def cap_shaped(rng, cfgset):
+    """With limit_request_field_size = 0 only the buffer cap derived from the field count bounds the head: a header block
+    within a few bytes of that cap, a body and a pipelined request behind it."""
+    nf = cfgset.get("limit_request_fields", 100)
+    cap = nf * (8190 + 2) + 4
+    total = cap + rng.choice([-40, -9, -5, -4, -3, -1, 0, 1, 3, 4, 5, 9, 40, 60, 200])
+    n = rng.randint(1, nf)
+    first = b"POST /cap HTTP/1.1\r\n"
+    fixed = b"Content-Length: 5\r\n"
+    room = total - len(fixed) - 2          # the block counted from behind the request line, incl. the empty line
+    per = max(8, room // n)
+    hdrs = []
+    used = 0
+    for i in range(n):
+        ln = per if i < n - 1 else max(8, room - used)
+        name = b"X-%d: " % i
+        hdrs.append(name + b"v" * max(0, ln - len(name) - 2) + b"\r\n")
+        used += len(hdrs[-1])
+    s = first + b"".join(hdrs) + fixed + b"\r\n" + b"hello" + gen.marker(1, b"end")
+    return s
+
+
+BINARY_PREFIXES = [b"\x16\x03\x01\x02\x00\x01\x00\x01\xfc\x03\x03", b"\x16\x03\x03", b"\x80\x80\x01\x03\x01", b"PRI * HTTP/2.0\r\n\r\nSM\r\n\r\n",
+                   b"\x00\x00\x12\x04\x00\x00\x00\x00\x00", b"SSH-2.0-OpenSSH_9.0\r\n", b"\x05\x01\x00", b"\x04\x01\x00P", b"*1\r\n$4\r\nPING\r\n",
+                   b"PROXY TCP4 1.2.3.4 5.6.7.8 1 2\r\n", b"\r\n\r\n", b"\xef\xbb\xbfGET / HTTP/1.1\r\n"]
+
+
+def binary_stream(rng):
+    """What is not HTTP at all: other protocols' opening bytes, with or without line ends, shorter and longer than the limits."""
+    s = rng.choice(BINARY_PREFIXES)
+    n = rng.choice([0, 3, 200, 517, 4090, 4096, 6000, 9000])
+    tail = bytes(rng.choice([rng.randrange(256), 0x41, 0x0, 0xff]) for _ in range(n))
+    if rng.random() < 0.5:
+        tail = tail.replace(b"\n", b"x").replace(b"\r", b"y")
+    s += tail
+    if rng.random() < 0.3:
+        s += b"\r\n\r\n" + gen.marker(1, b"end")
+    return s
+
+
 def limit_shaped(rng, cfgset):
     """A request whose head sits near the configured limits, followed by a body and a
     pipelined marker request."""
@@ -157,6 +197,10 @@ def check_stream(run, e1, stream, cfgset, tier, rng, origin, vectors=None, readk
         obs = e1.observe(cfg, pieces, **kw)
         run.case((sh, tuple(cuts), readk) if len(cuts) < 12 else (sh, common.sha12(list(cuts)), readk))
         run.count("segmentations")
+        if obs["terminal"][0] == "reject" and base["terminal"][0] == "reject" and obs["terminal"][1] != base["terminal"][1]:
+            # same point, different reason given: which of two applicable checks fires first can depend on how much of an
+            # over-limit head is buffered ("max buffer headers" looks at whatever has arrived) - counted
+            run.count("info_reject_class_differs/%s-vs-%s" % tuple(sorted([obs["terminal"][1], base["terminal"][1]])))
         if e1.obs_signature(obs) != bsig:
             nbad += 1
             if nbad <= 2:
@@ -189,10 +233,65 @@ def classify(base, obs):
     return "terminal-depends-on-segmentation/%s-vs-%s" % (bt[0], ot[0])
 
 
+def worker_shard(run, sh):
+    """The same comparison through real worker loops (engine E2): what the application is handed on a keep-alive connection must
+    not depend on how the bytes were spread over segments that arrive one after the other."""
+    from vlib import e2_worker as e2
+    from checks.c01 import _RecApp
+    rng = rng_for(sh["seed"], "c06-workers", sh["sub"])
+    kinds = ["gthread", "async"]
+    cfgs = {"gthread": {"keepalive": 2, "threads": 2}, "async": {"keepalive": 2}}
+    harn = {k: e2.Harness(k, cfgs[k]) for k in kinds}
+
+    def calls_of(kind, stream, segs, delay):
+        app = _RecApp()
+        out = harn[kind].connection(stream, app, mode="halfclose", segments=segs, segment_delay=delay, timeout=6.0)
+        if out["hung"]:
+            harn[kind].close()
+            harn[kind] = e2.Harness(kind, cfgs[kind])
+            return None
+        return [(c["method"], c["uri"], c.get("body"), c.get("body_error")) for c in app.calls]
+
+    try:
+        for k in range(sh["n"]):
+            if run.enough():
+                break
+            kind = kinds[k % 2]
+            stream = gen.gen_stream(rng, hostile=rng.choice([0.0, 0.0, 0.2]), sentinel=False)
+            if len(stream) > 12000 or len(stream) < 4:
+                continue
+            base = calls_of(kind, stream, None, 0.0)
+            if base is None:
+                continue
+            for rep in range(2):
+                cuts = sorted(set(rng.randint(1, len(stream) - 1) for _ in range(rng.randint(1, 4))))
+                segs = [b - a for a, b in zip([0] + cuts, cuts + [len(stream)])]
+                got = calls_of(kind, stream, segs, rng.choice([0.004, 0.01, 0.02]))
+                run.case((common.sha12(stream), tuple(cuts), kind), nontrivial=len(base) > 0)
+                run.count("worker_segmentations")
+                if len(base) > 1:
+                    run.count("worker_segmentations_keepalive")
+                if got is None:
+                    continue
+                if got != base:
+                    run.violation("worker/segmentation-changes-what-the-application-gets",
+                                  "%s worker: one segment -> %s; segments %s -> %s | stream=%s" % (
+                                      kind, [(m, u[:30], b and len(b), e) for m, u, b, e in base], segs,
+                                      [(m, u[:30], b and len(b), e) for m, u, b, e in got], hexs(stream[:200])),
+                                  {"stream": stream.hex(), "cfg": {}, "cuts": cuts, "origin": "workers", "worker": kind})
+                    break
+    finally:
+        for h in harn.values():
+            h.close()
+    return run
+
+
 def shard(sh):
     from vlib import e1_wire as e1
     tier = sh.get("tier", "quick")
     run = Run(PROP, tier, sh["seed"], "exploration", RULE)
+    if sh["kind"] == "workers":
+        return worker_shard(run, sh)
     rng = rng_for(sh["seed"], "c06", sh["kind"], sh["sub"])
     kind = sh["kind"]
     if kind == "gram":
@@ -220,7 +319,17 @@ def shard(sh):
             if run.enough():
                 break
             cfgset = rng.choice(SMALL_CFGS + [{}])
-            s = limit_shaped(rng, cfgset)
+            if k % 12 == 5:
+                cfgset = rng.choice([{"limit_request_fields": 2, "limit_request_field_size": 0},
+                                     {"limit_request_fields": 1, "limit_request_field_size": 0, "limit_request_line": 0}])
+                s = cap_shaped(rng, cfgset)
+                run.count("cap_shaped_streams")
+            elif k % 12 == 7:
+                cfgset = rng.choice([{}, {}, SMALL_CFGS[0]])
+                s = binary_stream(rng)
+                run.count("binary_streams")
+            else:
+                s = limit_shaped(rng, cfgset)
             check_stream(run, e1, s, cfgset, tier, rng, "limit", readk=rng.choice([None, None, None, 0, 3, 100]))
             run.count("limit_shaped_streams")
             if k == 0:
@@ -252,7 +361,8 @@ def main(tier, seed):
     run = Run(PROP, tier, seed, "exploration", RULE)
     run.require("segmentations", "streams_with_accepted_request", "streams_rejected",
                 "streams_premature_end", "streams_with_trailers", "streams_pipelined",
-                "limit_shaped_streams", "big_streams", "streams_with_body_left_unread")
+                "limit_shaped_streams", "big_streams", "streams_with_body_left_unread", "cap_shaped_streams", "binary_streams", "worker_segmentations",
+                "worker_segmentations_keepalive")
     q = tier == "quick"
     shards = []
     for sub in range(24 if q else 96):
@@ -261,6 +371,8 @@ def main(tier, seed):
         shards.append({"kind": "fixture", "sub": sub, "of": 8, "seed": seed, "tier": tier})
     for sub in range(16 if q else 64):
         shards.append({"kind": "limit", "n": 60 if q else 300, "sub": sub, "seed": seed, "tier": tier})
+    for sub in range(6 if q else 16):
+        shards.insert(0, {"kind": "workers", "n": 60 if q else 1500, "sub": sub, "seed": seed, "tier": tier})
     for sub in range(8 if q else 32):
         shards.append({"kind": "big", "n": 8 if q else 30, "sub": sub, "seed": seed, "tier": tier})
     run.assumptions = [
@@ -279,6 +391,26 @@ def replay(path):
     c = rec["case"]
     stream = bytes.fromhex(c["stream"])
     run = Run(PROP, "quick", 0, "exploration", RULE)
+    if c.get("origin") == "workers":
+        from vlib import e2_worker as e2
+        from checks.c01 import _RecApp
+        kind = c["worker"]
+        cfgset = {"keepalive": 2, "threads": 2} if kind == "gthread" else {"keepalive": 2}
+        res = []
+        cuts = c["cuts"]
+        for segs in (None, [b - a for a, b in zip([0] + cuts, cuts + [len(stream)])]):
+            h = e2.Harness(kind, cfgset)
+            app = _RecApp()
+            h.connection(stream, app, mode="halfclose", segments=segs, segment_delay=0.02 if segs else 0.0, timeout=6.0)
+            h.close()
+            res.append([(x["method"], x["uri"], x.get("body"), x.get("body_error")) for x in app.calls])
+        print("one segment:", [(m, u[:40], b and len(b), e) for m, u, b, e in res[0]])
+        print("segments   :", [(m, u[:40], b and len(b), e) for m, u, b, e in res[1]])
+        if res[0] != res[1]:
+            print("VIOLATION property=%s replay=%s\n  worker/segmentation-changes-what-the-application-gets" % (PROP, path))
+            return 1
+        print("no violation on replay")
+        return 0
     n = check_stream(run, e1, stream, c["cfg"], "quick", rng_for(0, "replay"), "replay", vectors=[c["cuts"]], readk=c.get("readk"))
     for mech, s, _ in run.violations:
         print("VIOLATION property=%s replay=%s\n  %s %s" % (PROP, path, mech, s))
